@@ -23,10 +23,10 @@ type c16Params struct {
 func c16Gen(tier string, seed int64) []fw.Case {
 	var cs []fw.Case
 	for i := 0; i < 8; i++ {
-		cs = append(cs, fw.Mk(fmt.Sprintf("base-%d", i), c16Params{Mode: "base", N: scale(tier, 40, 1500)}))
+		cs = append(cs, fw.Mk(fmt.Sprintf("base-%d", i), c16Params{Mode: "base", N: scale(tier, 40, 10000)}))
 	}
 	for i := 0; i < 16; i++ {
-		cs = append(cs, fw.Mk(fmt.Sprintf("reconn-%d", i), c16Params{Mode: "reconn", N: scale(tier, 5, 120)}))
+		cs = append(cs, fw.Mk(fmt.Sprintf("reconn-%d", i), c16Params{Mode: "reconn", N: scale(tier, 5, 600)}))
 	}
 	return cs
 }
